@@ -865,6 +865,23 @@ func ruleC17Current(cx *Ctx) {
 						ok, why = false, "slot base not recognisable"
 						continue
 					}
+					// the table the helper indexes is a parameter of the helper: what counts is the argument of this very
+					// call (other calls of the helper may only read the slot)
+					hc := recvValue(in).(*ssa.Call)
+					if p, isP := fa.X.(*ssa.Parameter); isP {
+						idx := -1
+						for i, q := range p.Parent().Params {
+							if q == p {
+								idx = i
+							}
+						}
+						if idx >= 0 && idx < len(hc.Call.Args) {
+							if okc, w := current(hc.Call.Args[idx], hc, 1); !okc {
+								ok, why = false, w
+							}
+							continue
+						}
+					}
 					if okc, w := current(fa.X, ia, 0); !okc {
 						ok, why = false, w
 					}
